@@ -332,6 +332,71 @@ fn step(ctx: &mut Ctx, id: &str, t: &[&str]) -> String {
                 format!("DIFF seq={:?} conc={:?}", sequential, concurrent)
             }
         }
+        "decode" => {
+            // decode <kind> <blob> [slot]: checked decoder on arbitrary bytes; reports
+            // Ok/Err, peak allocation, whether re-encoding reproduces the input
+            let bytes = ctx.blobs[t[2]].clone();
+            let slot = t.get(3).map(|s| s.to_string());
+            let base = crate::peak_reset();
+            let r = match t[1] {
+                "prover" => Prover::try_from_bytes(&bytes[..]).map(|p| {
+                    let same = p.to_bytes() == bytes;
+                    if let Some(s) = &slot { ctx.provers.insert(s.clone(), p); }
+                    same
+                }),
+                "verifier" => Verifier::try_from_bytes(&bytes[..]).map(|v| {
+                    let same = v.to_bytes() == bytes;
+                    if let Some(s) = &slot { ctx.verifiers.insert(s.clone(), v); }
+                    same
+                }),
+                "proof" => Proof::from_slice(&bytes).map_err(Error::from).map(|p| {
+                    let same = p.to_bytes()[..] == bytes[..];
+                    if let Some(s) = &slot { ctx.proofs.insert(s.clone(), (p, Vec::new())); }
+                    same
+                }),
+                "pp" => PublicParameters::from_slice(&bytes).map(|p| {
+                    let same = p.to_var_bytes() == bytes;
+                    if let Some(s) = &slot { ctx.pps.insert(s.clone(), p); }
+                    same
+                }),
+                _ => Err(Error::NotEnoughBytes),
+            };
+            let mem = crate::peak_since(base);
+            match r {
+                Ok(same) => format!("OK canonical={} mem={} len={}", same, mem, bytes.len()),
+                Err(e) => format!("ERR {} mem={} len={}", err_kind(&e), mem, bytes.len()),
+            }
+        }
+        "compilemem" => {
+            // compilemem <keys> <pp> <labelhex> <blob>: compile_with_compressed with peak allocation
+            let pp = &ctx.pps[t[2]];
+            let label = unhex(t[3]);
+            let bytes = ctx.blobs[t[4]].clone();
+            let base = crate::peak_reset();
+            let r = Compiler::compile_with_compressed(pp, &label, &bytes);
+            let mem = crate::peak_since(base);
+            match r {
+                Ok((p, v)) => {
+                    ctx.provers.insert(t[1].into(), p);
+                    ctx.verifiers.insert(t[1].into(), v);
+                    format!("OK mem={}", mem)
+                }
+                Err(e) => format!("ERR {} mem={}", err_kind(&e), mem),
+            }
+        }
+        "blobof" => {
+            // blobof <name> prover|verifier|proof|pp|compressed <slot>: store an honest encoding as a blob
+            let b = match t[2] {
+                "prover" => ctx.provers[t[3]].to_bytes(),
+                "verifier" => ctx.verifiers[t[3]].to_bytes(),
+                "proof" => ctx.proofs[t[3]].0.to_bytes().to_vec(),
+                "pp" => ctx.pps[t[3]].to_var_bytes(),
+                _ => ctx.blobs[&format!("{}.compressed", t[3])].clone(),
+            };
+            let n = b.len();
+            ctx.blobs.insert(t[1].into(), b);
+            format!("OK {}", n)
+        }
         "proverbytes" => format!("OK {}", hex(&ctx.provers[t[1]].to_bytes())),
         "verifierbytes" => format!("OK {}", hex(&ctx.verifiers[t[1]].to_bytes())),
         "digest" => {
